@@ -526,9 +526,24 @@ func c17Unsound(res *Result, c c17Case, v c17Verdict, changed string, predicted 
 		Key: key,
 		What: fmt.Sprintf("pkglint says line %d %s (because of line %d) in { %s }, but deleting it changes the final value of %s",
 			v.Flagged+1, kind, v.Because+1, c.prog.String(), strings.Join(vars, ",")),
-		FoundInput: true, Size: 10*len(c.prog) + len(c.prog.String())/8,
+		FoundInput: true, Size: c17Size(c.prog),
 		Replay: c17ReplayLayer(c, layer, map[string]any{"verdict": v.String(), "changed": vars}),
 	})
+}
+
+// c17Size orders witnesses: fewer lines first, then no self references
+// (their values are make's "recursive variable" error), then shorter text.
+func c17Size(p c17Prog) int {
+	n := 100 * len(p)
+	for _, l := range p {
+		if l.Assign && l.uses(l.Var) {
+			n += 20
+		}
+		if l.File != 0 {
+			n += 5
+		}
+	}
+	return n + len(p.String())/4
 }
 
 func c17ReplayLayer(c c17Case, layer string, extra map[string]any) map[string]any {
